@@ -545,7 +545,7 @@ pub fn c11() -> ProgEngine {
 
 fn c16_cfg(tier: Tier) -> ProgCfg {
     ProgCfg {
-        mix: OpMix { write: 16, read: 2, read_hash: 2, damage_content: 2, remove: 1, ..OpMix::NONE },
+        mix: OpMix { write: 16, read: 2, read_hash: 2, damage_content: 2, remove: 1, link_to: 3, ..OpMix::NONE },
         wmix: WriteMix { bad_decls: true, meta: false, by_hash: true, rich_matching: false, interfere: false },
         sizes: SizeMix::Small,
         keys: (2, 5),
@@ -577,6 +577,15 @@ fn c16_grid(_tier: Tier) -> Vec<Program> {
             c.entry = WEntry::OneShotAlgo;
             c.algo = algo;
             steps.push(Step { op: Op::Write(c), fl: Fl::Sync });
+        }
+        // ... and the same bytes once more as a linked file (builder API, read in different
+        // ways before the commit) and through the one-shot call
+        for (li, pre) in [vec![], vec![usize::MAX], vec![3, usize::MAX], vec![7, 20000]].into_iter().enumerate() {
+            let algo = ALGOS[(bi + li) % 5];
+            steps.push(Step {
+                op: Op::LinkTo(LinkSpec { key: Some(li % 5), blob: 0, target: li, relative: false, algo, oneshot: false, pre_reads: pre, declare: if li % 2 == 0 { Declare::Exact } else { Declare::None }, integ: IntegDecl::None, dotdot_via_symlink: false, vectored_reads: li == 3 }),
+                fl: if (li + bi) % 2 == 0 { Fl::Async } else { Fl::Sync },
+            });
         }
         let victim = ALGOS[bi % 5];
         steps.push(Step { op: Op::DamageContent { addr: AddrRef { algo: victim, blob: 0 }, dmg: CDamage::FlipBit(bi * 13) }, fl: Fl::Sync });
@@ -652,6 +661,16 @@ fn c16_after(ctx: &Ctx, prog: &Program, i: usize, r: &StepResult, _model: &Model
             }
         }
     }
+    // link_to is an entry point too: the address of a linked file is the digest of its bytes
+    if let (Op::LinkTo(l), Out::Int(a)) = (&prog.steps[i].op, &r.out) {
+        let algo = if l.oneshot { Algo::Sha256 } else { l.algo };
+        st.eval(1);
+        let want = blob::sri(algo, &ctx.blob(l.blob));
+        let declared_multi = l.key.is_some() && !matches!(l.integ, IntegDecl::None | IntegDecl::Correct);
+        if *a != want && !declared_multi {
+            return Err(format!("address {a} of the linked file != {want}"));
+        }
+    }
     Ok(())
 }
 
@@ -661,6 +680,13 @@ fn c16_classify(t: &Trace, st: &mut Stats) -> bool {
         if let Op::Write(w) = &s.op {
             let algo = if matches!(w.entry, WEntry::OneShot | WEntry::Create) { Algo::Sha256 } else { w.algo };
             seen.entry((algo, w.blob)).or_default().push((w.key, w.entry, s.fl));
+        }
+    }
+    for s in &t.prog.steps {
+        if let Op::LinkTo(l) = &s.op {
+            let algo = if l.oneshot { Algo::Sha256 } else { l.algo };
+            seen.entry((algo, l.blob)).or_default().push((l.key, WEntry::Opts, s.fl));
+            st.class("stored_through_link_to");
         }
     }
     let rewritten = seen.values().any(|v| v.len() >= 2 && v.iter().any(|x| *x != v[0]));
@@ -694,7 +720,7 @@ pub fn c16() -> ProgEngine {
         cfg: c16_cfg,
         strategy: None,
         grid: c16_grid,
-        grid_note: "fixed family: 9 lengths (incl. SHA block boundaries 55/56/64/111/112) x 5 algorithms x 3 entry points, one copy damaged at the end",
+        grid_note: "fixed family: 9 lengths (incl. SHA block boundaries 55/56/64/111/112) x 5 algorithms x 3 entry points, then 4 link_to commits of the same bytes (read to the end / partly / not at all before the commit), one copy damaged at the end",
         random: (1500, 30000),
         classify: c16_classify,
         sweep_every_step: true,
